@@ -442,8 +442,7 @@ Proof.
     { intros Hin. destruct (linked_in im l c Hlk Hin) as [_ X]. contradiction. }
     assert (chain_ok g (l ++ [c])) as Hch1.
     { destruct Hch as [Nd Hr]. split.
-      - apply NoDup_app_remove_mid1 with (x := c) (b := []) in Nd || idtac.
-        rewrite <- (app_nil_r (l ++ [c])). rewrite <- app_assoc. apply NoDup_insert; rewrite app_nil_r; assumption.
+      - rewrite <- (app_nil_r (l ++ [c])). rewrite <- app_assoc. apply NoDup_insert; rewrite app_nil_r; assumption.
       - apply Forall_app. split; [exact Hr|]. constructor; [exact Rc|constructor]. }
     assert (linked im1 (l ++ [c])) as Hlk1.
     { apply (linked_extend im im1 c l Hlk (proj1 Hch)); [apply in_range_iff; exact Rc|exact Fl1|exact Fc1|].
